@@ -45,6 +45,18 @@ func inverseOf(cl *cluster, cur *world, u *updateDesc) *updateDesc {
 	return nil
 }
 
+// initialOf describes the cluster as it is now (settings, stores, and the rules the rule manager serves).
+func initialOf(cl *cluster, cur *world) *world {
+	w := cloneWorld(cur)
+	if w.Rules != "off" {
+		w.Rules, w.RuleSet = "custom", nil
+		for _, r := range cl.RuleManager.GetAllRules() {
+			w.RuleSet = append(w.RuleSet, descOfRule(r))
+		}
+	}
+	return w
+}
+
 func runConcurrentWorld(s *stats, w0 *world, rng *rand.Rand) error {
 	cl, err := newCluster(w0)
 	if err != nil {
@@ -98,7 +110,7 @@ func runConcurrentWorld(s *stats, w0 *world, rng *rand.Rand) error {
 		var jobs []*job
 		for i := 0; i < 5; i++ {
 			specs := genRegion(rng, cur, ups[0].class() == "rule" && i%2 == 0)
-			k := &kase{Region: layoutString(specs), RegionID: nextID, Initial: cloneWorld(cur), Round: 1}
+			k := &kase{Region: layoutString(specs), RegionID: nextID, Initial: initialOf(cl, cur), Round: 1}
 			nextID++
 			if rng.Intn(12) == 0 {
 				k.FailAlloc = []string{"direct", "controller", "both"}[rng.Intn(3)]
@@ -135,6 +147,11 @@ func runConcurrentWorld(s *stats, w0 *world, rng *rand.Rand) error {
 				return err
 			}
 			if err := applyUpdate(quiet, cl, cur, invs[1]); err != nil {
+				return err
+			}
+			// pd may refuse to put the old version back (e.g. the old rule no longer matches any store since
+			// a store got an exclusive label): the state the calls start from is whatever the cluster holds NOW
+			if err := snapshotViews(0); err != nil {
 				return err
 			}
 		}
